@@ -131,6 +131,33 @@ func primitivesPart(c *cli.Ctx) *cli.PartResult {
 		var x [3]byte
 		return done(serializer.NewDeserializer(b).ReadBytesInPlace(x[:], nop))
 	})
+	add("Deserializer.ReadNum[uint16]+Skip(3)+ReadByte", func(b []byte) int {
+		var x uint16
+		var y byte
+		return done(serializer.NewDeserializer(b).ReadNum(&x, nop).Skip(3, nop).ReadByte(&y, nop))
+	})
+	add("Deserializer.ReadByte+Skip(1)+RemainingBytes", func(b []byte) int {
+		var y byte
+		d := serializer.NewDeserializer(b).ReadByte(&y, nop).Skip(1, nop)
+		_ = d.RemainingBytes()
+		return done(d)
+	})
+	for _, width := range []int{1, 2, 3} {
+		width := width
+		for mn, mode := range map[string]serializer.ArrayValidationMode{"amo-byte": serializer.ArrayValidationModeAtMostOneOfEachTypeByte, "amo-uint32": serializer.ArrayValidationModeAtMostOneOfEachTypeUint32, "nodup+lex": serializer.ArrayValidationModeNoDuplicates | serializer.ArrayValidationModeLexicalOrdering} {
+			mode := mode
+			add(fmt.Sprintf("Deserializer.ReadSequenceOfObjects(u8,%s,%d-byte elements)", mn, width), func(b []byte) int {
+				d := serializer.NewDeserializer(b)
+				d.ReadSequenceOfObjects(func(rest []byte) (int, error) {
+					if len(rest) < width {
+						return 0, fmt.Errorf("short")
+					}
+					return width, nil
+				}, serializer.DeSeriModePerformValidation, serializer.SeriLengthPrefixTypeAsByte, &serializer.ArrayRules{ValidationMode: mode}, nop)
+				return done(d)
+			})
+		}
+	}
 	add("Deserializer.Skip(2)+ReadByte", func(b []byte) int {
 		var x byte
 		return done(serializer.NewDeserializer(b).Skip(2, nop).ReadByte(&x, nop))
